@@ -108,6 +108,7 @@ PENDING = {
     "getitem:full-shape-mask&split-chunks&zero-length-axis:TypeError@array/reshape.py:reshape_rechunk": "x[mask] with shape (4, 0), chunks ((2, 2), (0,)): ravel fails",
     "getitem:full-shape-dask-mask[own-chunks]&zero-length-axis:TypeError@array/reshape.py:reshape_rechunk": "same, the split chunks are those of the dask mask",
     "getitem:full-shape-mask&split-chunks&zero-length-axis:IndexError@array/reshape.py:reshape_rechunk": "same with two zero-length axes",
+    "getitem:full-shape-dask-mask[own-chunks]&zero-length-axis:IndexError@array/reshape.py:reshape_rechunk": "same with two zero-length axes",
     # chunkings with a zero-size chunk inside a non-empty axis, e.g. chunks=((2, 0, 1),)  (family label, see classify)
     "getitem:slice&zero-size-chunk:wrong-result": "da.from_array(np.arange(3), chunks=((2, 0, 1),))[::-1] is empty: _slice_1d bisects duplicate chunk boundaries",
     "getitem:int-or-bool-array&zero-size-chunk:raises": "x[[1]] with chunks (1, 0, 1): take() computes average_chunk_size 0 -> range() arg 3 must not be zero",
